@@ -50,7 +50,10 @@ def run_all_shards(args, mod):
             cmd = [sys.executable, "-W", "ignore", "-m", "verif.cli", args.prop, "--tier", args.tier, "--seed",
                    str(args.seed), "--shard", str(i), "--nshards", str(nshards), "--out", out]
             log = open(os.path.join(tmp, "shard%d.log" % i), "w")
-            procs.append((i, out, log, subprocess.Popen(cmd, stdout=log, stderr=subprocess.STDOUT)))
+            # shard scratch space lives under the parent's directory, so a shard killed by the watchdog (which never
+            # runs its teardown) cannot leave anything behind
+            env = dict(os.environ, VERIF_TMP=tmp)
+            procs.append((i, out, log, subprocess.Popen(cmd, stdout=log, stderr=subprocess.STDOUT, env=env)))
         summaries = []
         deadline = time.monotonic() + budget + 120
         for i, out, log, p in procs:
